@@ -85,7 +85,7 @@ func init() {
 			{{K: "arr", Addr: 1, TI: 1}, {K: "map", Addr: 2, TI: 2}},
 		},
 		MaxBulk: 80, Keys: []int{12, 64, 300},
-		ValW:    valAll, MaxDepth: 2, MaxElems: 5, AcqW: [3]int{8, 1, 1},
+		ValW: valAll, MaxDepth: 2, MaxElems: 5, AcqW: [3]int{8, 1, 1},
 		HipGroupsPct: 20, DigRootsPct: 15,
 	})
 	register(&PropDef{
@@ -164,7 +164,7 @@ func init() {
 			{{K: "map", Addr: 1, TI: 2}},
 		},
 		MaxBulk: 120, Keys: []int{12, 64, 300},
-		ValW:    valAll, MaxDepth: 2, MaxElems: 5, AcqW: [3]int{8, 1, 1},
+		ValW: valAll, MaxDepth: 2, MaxElems: 5, AcqW: [3]int{8, 1, 1},
 		HipGroupsPct: 30, // default-digester collisions: pooled digesters compute their deeper levels
 	})
 	register(&PropDef{
